@@ -588,6 +588,21 @@ func (p *Parser) ParsingIter() iter.Seq[*ParserReply] {
 		// allow ParseExpression to yield when deep
 		// down the stack (half way through a parse)
 		// and we need more input.
+		// Once the consumer has stopped (yield returned false) it must never be
+		// called again: a second call from a range-over-func loop that was left
+		// with break or return is a run-time panic.
+		stopped := false
+		consumer := yield
+		yield = func(reply *ParserReply) bool {
+			if stopped {
+				return false
+			}
+			if !consumer(reply) {
+				stopped = true
+				return false
+			}
+			return true
+		}
 		p.yield = yield
 
 		var expr Sexp
